@@ -384,7 +384,7 @@ size_t LzmaSynth::emit(RangeEnc &rc, SynthRng &rng, size_t nsym, size_t max_out,
 	size_t start = o.size();
 	unsigned feat = 0;
 	size_t illegal_k = (size_t)-1;
-	if (rng.illegal_permille && rng.chance(rng.illegal_permille)) illegal_k = rng.chance(400) ? 0 : (size_t)rng.below(nsym < 40 ? nsym : 40);
+	if (rng.site(0)) illegal_k = rng.chance(400) ? 0 : (size_t)rng.below(nsym < 40 ? nsym : 40);
 	for (size_t k = 0; k < nsym && o.size() - start < max_out; ++k) {
 		size_t left = max_out - (o.size() - start);
 		if (k == illegal_k && left >= 2) {
@@ -577,8 +577,33 @@ Bytes synth_lzma2(SynthRng &rng, uint32_t dict, size_t nchunks, Bytes &plain, un
 	s.dict_size = dict ? dict : 1;
 	bool need_dict_reset = true, need_props = true, have_props = false;
 	unsigned feat = 0;
+	// deliberately invalid chunk sequences (same switch as the illegal-distance
+	// symbol): 1 = the first chunk does not reset the dictionary, 2 = an LZMA
+	// chunk without properties where they are required, 3 = a reserved control byte
+	int bad_grammar = 0;
+	if (rng.site(1) && nchunks > 0) bad_grammar = 1 + (int)rng.below(3);
+	size_t bad_chunk = bad_grammar == 1 ? 0 : (size_t)rng.below(nchunks ? nchunks : 1);
 	for (size_t c = 0; c < nchunks; ++c) {
 		bool uncompressed = rng.chance(200);
+		int force_level = -1;
+		if (bad_grammar == 3 && c == bad_chunk) {
+			out.push_back((uint8_t)(3 + rng.below(0x7D)));
+			for (int i = 0; i < 4; ++i) out.push_back((uint8_t)rng.next());
+			++rng.illegal_emitted; bad_grammar = 0;
+			continue;
+		}
+		if (bad_grammar == 1 && c == 0) {
+			// pretend the dictionary had been reset already
+			need_dict_reset = false;
+			if (!uncompressed) { need_props = true; force_level = 2; }
+			++rng.illegal_emitted; bad_grammar = 0;
+		}
+		if (bad_grammar == 2 && c == bad_chunk && need_props && !uncompressed) {
+			// LZMA chunk with control 0x80/0xA0 although properties are due
+			if (!have_props) { s.m.set_props(3, 0, 2); s.m.reset_state(); have_props = true; }
+			need_props = false; force_level = (int)rng.below(2);
+			++rng.illegal_emitted; bad_grammar = 0;
+		}
 		if (uncompressed) {
 			bool reset = need_dict_reset || rng.chance(150);
 			size_t n = 1 + (size_t)rng.below(rng.chance(100) ? 65536 : 300);
@@ -595,6 +620,7 @@ Bytes synth_lzma2(SynthRng &rng, uint32_t dict, size_t nchunks, Bytes &plain, un
 		if (need_dict_reset) level = 3;
 		else if (need_props) level = 2 + (int)rng.below(2);
 		else level = (int)rng.below(4);
+		if (force_level >= 0) level = force_level;
 		if (level == 3) { s.dict_start = plain.size(); if (!need_dict_reset) feat |= SF2_DICT_RESET_MID; need_dict_reset = false; }
 		if (level >= 2) {
 			int lc = (int)rng.below(5), lp = (int)rng.below(5 - (unsigned)lc), pb = (int)rng.below(5);
